@@ -12,7 +12,7 @@ import (
 func init() {
 	register(&propInfo{
 		ID:          "C02",
-		Explanation: "Value-origin and path analysis of the response-routing mechanism of the WebSocket client: (R02.1) request ids are minted only by sync/atomic operations on the client's counter, pass through the id normaliser, and nothing else is stored in a request's id; (R02.2) every id-bearing request that is accepted is registered in the in-flight table under its own id, as itself; (R02.3) every mailbox is a fresh channel of capacity >= 1; (R02.4) the response handler delivers to the mailbox of the entry looked up under the response's own id, with result/error/id taken from that same frame; (R02.5) delivery is single: the response handler removes the entry on every path after delivering, the failer empties the table, the accept arm answers only requests it did not register; (R02.6) frames are executed in arrival order: one executor goroutine started outside any loop, enqueue before the next read is started, synchronous dispatch down to the response / channel handlers; (R02.7) the frame decode target is a zero-valued allocation made per frame (decoding into a recycled struct would alias buffers already handed to callers and handlers). (R02.9) the request queue is unbuffered: the hand-over to the connection loop is a rendezvous, so no request is left in a buffer when the loop exits. (R02.10) the connection-unusable mark is set before every loss signal and cleared only after a new socket is installed. (R02.11) no handler runs on the frame executor; (R02.12) the reverse client is built per connection; (R02.13) every hand-over to the loop watches the current exit signal.",
+		Explanation: "Value-origin and path analysis of the response-routing mechanism of the WebSocket client: (R02.1) request ids are minted only by sync/atomic operations on the client's counter, pass through the id normaliser, and nothing else is stored in a request's id; (R02.2) every id-bearing request that is accepted is registered in the in-flight table under its own id, as itself; (R02.3) every mailbox is a fresh channel of capacity >= 1; (R02.4) the response handler delivers to the mailbox of the entry looked up under the response's own id, with result/error/id taken from that same frame; (R02.5) delivery is single: the response handler removes the entry on every path after delivering, the failer empties the table, the accept arm answers only requests it did not register; (R02.6) frames are executed in arrival order: one executor goroutine started outside any loop, enqueue before the next read is started, synchronous dispatch down to the response / channel handlers; (R02.7) the frame decode target is a zero-valued allocation made per frame (decoding into a recycled struct would alias buffers already handed to callers and handlers). (R02.9) the request queue is unbuffered: the hand-over to the connection loop is a rendezvous, so no request is left in a buffer when the loop exits. (R02.10) the connection-unusable mark is set before every loss signal and cleared only after a new socket is installed. (R02.11) no handler runs on the frame executor; (R02.12) the reverse client is built per connection; (R02.13) every hand-over to the loop watches the current exit signal. (R02.14) the frame queue the executor reads from is made once, at construction. (R02.15) a frame taken off the socket is always queued for the executor.",
 		NotDecided:  "That a given schedule completes; HTTP (one exchange per call, no shared routing state); the redundant response-id equality checks on the caller side (defensive only).",
 		Assumptions: []string{"encoding/json reuses the backing array of a pre-populated []byte/RawMessage field when decoding into it", "the connection loop is the only receiver of the request queue"},
 		Run:         runC02,
@@ -232,6 +232,8 @@ func runC02(c *Ctx) {
 	c.reverseClientFresh("R02.12")
 	c.rule("R02.13", "every hand-over of a request to the connection loop is a select alternative to the client's exit signal as it is at that moment (a call made around close returns)")
 	c.enqueueRule("R02.13")
+	c.rule("R02.15", "a frame taken off the socket is always handed to the executor: the send on the frame queue waits as long as it takes (no timer or default branch lets the reader discard a frame — the call it answers would never complete)")
+	c.frameNeverDiscarded("R02.15")
 	c.rule("R02.14", "the frame queue the executor reads from is made once, when the connection object is set up: replacing it later (on reconnect) leaves the executor parked on the old queue and no response is dispatched any more")
 	if c.need("R02.14", "F_queue", r.FQueue != nil) {
 		n := 0
@@ -824,4 +826,107 @@ func (c *Ctx) clientCopyRule(rule string, report bool) {
 	if report && nbad == 0 {
 		c.ok(rule, "client object behind the proxy functions", "-", "no copy of the client object is kept")
 	}
+}
+
+// frameNeverDiscarded: R02.15. Every send on the frame queue is a plain send, or a select whose other
+// alternatives are not timers; a non-blocking attempt (default) must lead to another send on the queue
+// before the function returns or restarts the socket reader.
+func (c *Ctx) frameNeverDiscarded(rule string) {
+	p, r := c.P, c.R
+	if r.FQueue == nil {
+		c.und(rule, "frame queue", "-", "not resolved")
+		return
+	}
+	isTimer := func(ch ssa.Value) bool {
+		return c.dependsOn(ch, func(v ssa.Value) bool {
+			if call, ok := v.(*ssa.Call); ok {
+				switch calleeName(call) {
+				case "time.After", "time.Tick", "time.NewTimer", "time.NewTicker":
+					return true
+				}
+			}
+			return false
+		}, 0, map[ssa.Value]bool{})
+	}
+	isEnq := func(x ssa.Instruction) bool {
+		switch y := x.(type) {
+		case *ssa.Send:
+			return c.fieldVal(y.Chan, r.FQueue)
+		case *ssa.Select:
+			for _, st := range y.States {
+				if st.Dir == types.SendOnly && c.fieldVal(st.Chan, r.FQueue) {
+					return true
+				}
+			}
+		}
+		return false
+	}
+	n := 0
+	for _, fn := range p.Funcs {
+		if pkgOf(fn) != p.Root.Pkg {
+			continue
+		}
+		allInstrsRaw(fn, func(in ssa.Instruction) {
+			if !isEnq(in) {
+				return
+			}
+			n++
+			construct := fmt.Sprintf("%s: hand-over of a frame to the executor", fname(fn))
+			sel, ok := in.(*ssa.Select)
+			if !ok {
+				c.ok(rule, construct, c.ipos(in), "plain blocking send")
+				return
+			}
+			for _, st := range sel.States {
+				if st.Dir == types.RecvOnly && isTimer(st.Chan) {
+					c.bad(rule, construct, c.ipos(in), "the send on the frame queue competes with a timer: when the executor is behind for that long the frame is discarded — if it was a request its call never gets a response, if it was a response its caller waits for ever (a duration that is zero on one side makes this immediate)")
+					return
+				}
+			}
+			if !sel.Blocking {
+				// a successful non-blocking send legitimately reaches the return: decide on the default edge only
+				if !c.defaultLeadsToEnqueue(sel, isEnq) {
+					c.bad(rule, construct, c.ipos(in), "a non-blocking send on the frame queue whose default branch does not end in another, blocking hand-over: a frame that finds the queue full is discarded")
+					return
+				}
+			}
+			c.ok(rule, construct, c.ipos(in), "select without timer alternatives")
+		})
+	}
+	if n == 0 {
+		c.und(rule, "hand-over of frames", "-", "no send on the frame queue found")
+	}
+}
+
+// defaultLeadsToEnqueue: on the branch where the non-blocking select chose its default (index -1),
+// every path to a return passes an enqueue.
+func (c *Ctx) defaultLeadsToEnqueue(sel *ssa.Select, isEnq func(ssa.Instruction) bool) bool {
+	var idx ssa.Value
+	for _, ref := range *sel.Referrers() {
+		if ex, ok := ref.(*ssa.Extract); ok && ex.Index == 0 {
+			idx = ex
+		}
+	}
+	if idx == nil {
+		return false
+	}
+	// blocks reached when idx compares equal to a state index are the non-default arms
+	var def *ssa.BasicBlock
+	cur := sel.Block()
+	for steps := 0; steps < len(sel.States)+1 && cur != nil; steps++ {
+		iff, ok := cur.Instrs[len(cur.Instrs)-1].(*ssa.If)
+		if !ok {
+			break
+		}
+		bo, ok := iff.Cond.(*ssa.BinOp)
+		if !ok || bo.X != idx {
+			break
+		}
+		cur = cur.Succs[1]
+		def = cur
+	}
+	if def == nil {
+		return false
+	}
+	return reachFromBlock(def, isReturn, func(x ssa.Instruction) bool { return x != ssa.Instruction(sel) && isEnq(x) }) == nil
 }
